@@ -28,9 +28,11 @@ MANIFEST = {
              "from_sdmx(to_sdmx(p)) = p with the frequency auto-detected by the model's matcher for the regular-expression subset used by "
              "SDMX_REXP_FORMATS (the pattern TEXT is regenerated from dates.py on every run, so a changed pattern re-checks the proofs); "
              "refrequent returns the target period containing the chosen day of the source period (containment as day intervals), is monotone, "
-             "and coarse->fine->coarse returns the original period for every pair of positions. Tie: translator for formulas, tables and "
+             "and coarse->fine->coarse returns the original period for every pair of positions; periods_from_sdmx_strings of the strings of "
+             "any list of same-frequency periods (gaps, repetitions, any order) returns that list, frequency given or detected. Tie: translator for formulas, tables and "
              "patterns; exact correspondence of every produced string and conversion (quick: 1890-2110 + boundary years, all frequency pairs "
-             "and positions; thorough: years 1-9999) plus a malformed-string stream; independent datetime oracle on the implementation."),
+             "and positions; thorough: years 1-9999) plus malformed-string and string-sequence streams; independent datetime oracle on the implementation, also through the function "
+             "forms/aliases of refrequent and the sequence forms (periods_from_*/daters_from_*/Span.to_*_strings)."),
     "design": "7/C11",
     "note": "Python's format/split/int/re are tied by correspondence on produced and malformed strings, not modelled in full.",
     "technique": "Lean 4 proof over executable model + translator-regenerated tables/patterns + exhaustive differential correspondence",
